@@ -983,8 +983,8 @@ Definition classify_extend (d : dset) (os : list dset) (s : option string) (b : 
       end
     else 1%Z in
   let other_classes :=
-    if class_any time_fill_class d os && match b with ORaise => true | _ => false end then 10%Z
-    else if Z.eqb refs_class 4 then 4%Z
+    if Z.eqb refs_class 4 then 4%Z        (* an exception where both classes apply is the reference class's *)
+    else if class_any time_fill_class d os && match b with ORaise => true | _ => false end then 10%Z
     else if class_any coll_len_class d os then 8%Z
     else if class_any nested_pad_class d os then 6%Z
     else if class_any nested_drop_class d os then 7%Z
